@@ -382,6 +382,16 @@ pub fn compare_view(buf: &[u8], msg: &Message, view: &RefView, check_prop: &str)
     Ok(())
 }
 
+/// `Message` is `Clone`: a clone exposes exactly what the original does (an application that queues
+/// parsed messages).  Run after `compare_view` succeeded on the original.
+pub fn compare_clone(buf: &[u8], msg: &Message, view: &RefView, check_prop: &str) -> ScResult {
+    let c = msg.clone();
+    compare_view(buf, &c, view, check_prop).map_err(|mut v| {
+        v.message = format!("on a clone of the parsed message: {}", v.message);
+        v
+    })
+}
+
 /// Run the pipeline on one delivery.
 pub fn receive(ctx: &mut Ctx, buf: &[u8], o: &PipeOpts) -> ScResult {
     // 1. demultiplexer peeking at the type (deliveries may be 0 or 1 byte long)
@@ -475,6 +485,10 @@ pub fn receive(ctx: &mut Ctx, buf: &[u8], o: &PipeOpts) -> ScResult {
                             ctx.st.inc("probe.both_integrity_attributes_and_fingerprint");
                         }
                         compare_view(buf, msg, view, &ctx.cfg.prop)?;
+                        // one message in four is also inspected through a clone (decided by content)
+                        if buf.len() % 4 == 0 && buf[buf.len() / 2] & 3 == 0 {
+                            compare_clone(buf, msg, view, &ctx.cfg.prop)?;
+                        }
                     }
                     Verdict::Reject(causes) => {
                         let only_excess = causes.len() == 1 && matches!(causes[0], Cause::Excess { .. });
